@@ -417,6 +417,23 @@ func ruleC11(c *Ctx) {
 	c.rule("C11-R7", "every EncryptedAssertion is decoded into a target allocated by its own handler invocation (shared with C07-R3): a reused target carries the previous element's key placement / digest into the next")
 	if da := c.kernel("(*SAMLServiceProvider).decryptAssertions", "*", "-(*SAMLServiceProvider).getDecryptCert", "-types.(*EncryptedAssertion).DecryptBytes", "-parseResponse"); da != nil {
 		freshTargetsInHandlers(c, "C11-R7", da)
+		// R8: what is decoded into the EncryptedAssertion struct is a detached copy of the visited element that keeps the
+		// namespace declarations it inherits (NSDetatch) — a plain Copy() drops xmlns:saml declared on the Response and
+		// the element no longer decodes, so an encrypted response is refused where its plaintext twin is accepted
+		c.rule("C11-R8", "the EncryptedAssertion is decoded from a namespace-preserving detached copy (etreeutils.NSDetatch) of the element being visited")
+		n := 0
+		for _, t := range da.Terms {
+			for _, d := range decodes(t) {
+				if typeStr(d.Obj.Type()) != "*types.EncryptedAssertion" {
+					continue
+				}
+				n++
+				want := "nscopy(desc(param:el))"
+				c.check(d.Prov == want, "C11-R8", shortFn(da.Root), "EncryptedAssertion decode source", c.P.InstrPos(d.Ev.Instr), want, "the EncryptedAssertion is decoded from "+d.Prov+", want "+want+" (inherited namespace declarations must travel with the element)")
+			}
+		}
+		c.count("C11-R8", n)
+		c.floor("C11-R8", 1)
 	}
 
 	// R3
